@@ -109,7 +109,8 @@ def gen_model(rng, which):
             o.pop('blocks', None)
             o.pop('sid', None)
         K = len([s for s in d['steps'] if s.get('role') == 'cons'])
-        dv = [(n, 1) for n in d['xnames']] if d['xnames'] != ['x'] else [('x', K)]
+        nx = len(d['expect']['x'])
+        dv = [(n, 1) for n in d['xnames']] if d['xnames'] != ['x'] else [('x', nx)]
         return {'kind': 'ro', 'ops': ops, 'pool': d['pool'], 'tol': hist.TOL[d['cone']],
                 'dvars': dv, 'rvars': list(d['zs'].items()),
                 'robust': ['c%d' % k for k in range(K)], 'det_cons': [], 'ambs': []}
@@ -150,8 +151,11 @@ def gen_case(seed, cfg):
     mode = rng.choice(cfg.get('modes', ['interference', 'misuse', 'misuse']))
     nm = rng.choice([2, 2, 3])
     models = []
+    # themed cases: the misuse kinds that need two ambiguity sets (or two robust models) get enough partners
+    theme = rng.random()
+    srcs = cfg.get('sources') or (['combo-dro'] if theme < 0.2 else ['combo-ro', 'ro-sep', 'combo-dro'] if theme < 0.3 else SOURCES)
     for i in range(nm):
-        mm = gen_model(random.Random(subseed(seed, 'model', i)), rng.choice(cfg.get('sources', SOURCES)))
+        mm = gen_model(random.Random(subseed(seed, 'model', i)), rng.choice(srcs))
         pre = 'ABC'[i] + '_'
         mm['pre'] = pre
         mm['rops'] = rename_ops(mm['ops'], pre)
@@ -210,6 +214,16 @@ def gen_case(seed, cfg):
                 ops.append(ev)
             elif rng.random() < 0.5:
                 ops.append({'op': 'gc', 'junk': rng.randint(0, 30), 'env': 1, 'task': '-'})
+        # a step that opens a narrow window (a fresh decision rule not yet used, a fresh ambiguity set, a dro decision before
+        # any constraint) is followed at once, every other time, by the misuse that needs that window
+        window = {'ldr': ['foreign_adapt_ldr'], 'amb': ['foreign_supp', 'foreign_expt', 'foreign_prob', 'foreign_second_in_list'],
+                  'dvar': ['foreign_adapt'], 'forall': ['foreign_set_forall', 'foreign_amb_forall'],
+                  'st': ['ambiguity_after_constraints', 'foreign_amb_objective']}.get(op['op'])
+        if window and n_mis < max_mis and rng.random() < 0.5:
+            mo = gen_misuse(rng, models, state, only=window, first=i)
+            if mo is not None:
+                n_mis += 1
+                ops.extend(mo)
         while n_mis < max_mis and rng.random() < 0.2:
             mo = gen_misuse(rng, models, state)
             if mo is None:
@@ -231,12 +245,14 @@ def _sum_dv(mm, rng):
     return ['sum', ['v', mm['pre'] + nmv]] if size > 1 else ['sum', ['v', mm['pre'] + nmv]]
 
 
-def gen_misuse(rng, models, state):
+def gen_misuse(rng, models, state, only=None, first=None):
     """one misuse op (list of ops, last one carries expect='raise') on objects that exist right now, or None"""
     nm = len(models)
     order = list(MISUSE)
     rng.shuffle(order)
-    if rng.random() < 0.7:
+    if only:
+        order = [k for k in order if k in only]
+    elif rng.random() < 0.7:
         # kinds with narrow preconditions first, rarest first (a random cut keeps the head of the list from monopolising)
         rare = ['foreign_amb_forall', 'foreign_amb_forall_exppw', 'foreign_amb_forall_explin', 'foreign_prob', 'foreign_amb_objective',
                 'foreign_set_forall', 'foreign_adapt_ldr', 'foreign_expt', 'foreign_second_in_list', 'foreign_set_minmax',
@@ -245,8 +261,11 @@ def gen_misuse(rng, models, state):
         cut = rng.randrange(len(rare))
         rare = rare[cut:] + rare[:cut] if rng.random() < 0.5 else rare
         order = rare + [k for k in order if k not in rare]
+    first_ = first
     first = list(range(nm))
     rng.shuffle(first)          # the misused model is drawn first (uniformly), then the kind of misuse
+    if first_ is not None:
+        first = [first_]
     for a, kind in [(a_, k_) for a_ in first for k_ in order]:
         others = [b_ for b_ in range(nm) if b_ != a]
         rng.shuffle(others)
